@@ -39,7 +39,9 @@ PROBES = ['kind:smtp', 'kind:lmtp', 'kind:mx', 'kind:pipe', 'kind:pipe1',
           'helo-fallback', 'rcpt-rejected', 'all-rcpts-rejected',
           'malformed-reply', 'disconnect', 'stall', 'pipelining-off',
           'starttls', 'auth', 'mx-second-host', 'mx-a-fallback', 'dns-error',
-          'no-domain', 'lmtp-per-rcpt-failure', 'http-no-reply-header']
+          'dns-a-fallback-error',
+          'no-domain', 'lmtp-per-rcpt-failure', 'http-no-reply-header',
+          'http-response-body']
 STATES_MEASURE = 'distinct (relay kind, fault stage, fault behaviour, pipelining) tuples'
 STEP_CAP = 300000
 SMTP_STAGES = ['connect', 'banner', 'ehlo', 'mail', 'rcpt', 'rcpt', 'data',
@@ -193,7 +195,8 @@ def generate(seed, tier='quick'):
                                       if k == 'offer_starttls'}]
         scn['tx_scripts'] = tx
         if kind == 'mx':
-            z = rng.choice(['mx2', 'mx1', 'a', 'none', 'error', 'nodomain'])
+            z = rng.choice(['mx2', 'mx1', 'a', 'none', 'error', 'a-error',
+                            'nodomain'])
             scn['zone_kind'] = z
             zones = {}
             if z == 'mx2':
@@ -214,6 +217,15 @@ def generate(seed, tier='quick'):
                 for a in attempts:
                     a['expect'] = {'whole': 'temp'}
                     a['stage'], a['behav'] = 'dns', 'error'
+            elif z == 'a-error':
+                # no MX records (a clean negative answer), then a resolver
+                # fault on the fall-back address query: still a resolver
+                # error, hence transient
+                zones['d.example'] = {'MX': rng.choice(['nodata', 'notfound']),
+                                      'A': rng.choice(['timeout', 'servfail'])}
+                for a in attempts:
+                    a['expect'] = {'whole': 'temp'}
+                    a['stage'], a['behav'] = 'dns', 'a-error'
             else:
                 for a in attempts:
                     a['rcpts'] = ['nodomain%s' % a['tag']]
@@ -514,6 +526,8 @@ def execute(scn, debug=False):
             world.probe('mx-second-host')
         if scn.get('zone_kind') == 'error':
             world.probe('dns-error')
+        if scn.get('zone_kind') == 'a-error':
+            world.probe('dns-a-fallback-error')
         if scn.get('zone_kind') == 'nodomain':
             world.probe('no-domain')
         # (no relay.kill() here: RelayPool.kill iterates a *set* of client
